@@ -6,6 +6,7 @@
 //         (a = antichains, d = congr depth, b = congr breadth; each 0 | 1 | EXC:<class>;
 //          I = the operands re-read after all calls)
 #include "nfa_common.hh"
+#include <unistd.h>
 using namespace vd;
 
 static std::string verdict(const FA& a, const FA& b, int sel) {
@@ -29,6 +30,7 @@ static std::string verdict(const FA& a, const FA& b, int sel) {
 int main() {
 	std::string line;
 	while (std::getline(std::cin, line)) {
+		alarm(20);   // watchdog: a case that does not return kills the driver (SIGALRM), reported as a hang of this case
 		guarded([&]() {
 			Toks t(line); t.expect("incl"); char mode = t.word()[0];
 			NFA na = readW(t), nb = readW(t);
